@@ -461,6 +461,41 @@ class Desugar:
                     return c, n
         return None, None
 
+    def class_const(self, m, cls, attr):
+        """literal of a class-level constant (NAME = ("a", "b") / "text", also annotated) looked up from `cls`; None unless it is bound exactly
+        once in the same-module part of the MRO, never stored through an instance / class anywhere, and not re-defined in a subclass"""
+        key = (id(cls), attr)
+        cache = self.__dict__.setdefault("_cc", {})
+        if key in cache:
+            return cache[key]
+        found = None
+        for c in self.mro_same_module(m, cls):
+            hits = []
+            for n in c.body:
+                if isinstance(n, ast.Assign) and len(n.targets) == 1 and isinstance(n.targets[0], ast.Name) and n.targets[0].id == attr:
+                    hits.append(n.value)
+                elif isinstance(n, ast.AnnAssign) and isinstance(n.target, ast.Name) and n.target.id == attr and n.value is not None:
+                    hits.append(n.value)
+            if hits:
+                v = hits[0]
+                ok = len(hits) == 1 and ((isinstance(v, ast.Tuple) and is_const_lit(v)) or (isinstance(v, ast.Constant) and isinstance(v.value, str)))
+                found = v if ok else None
+                owner = c
+                break
+        if found is not None:
+            # stored anywhere as an attribute (x.NAME = ..) or re-defined in a subclass: not a constant
+            for mod in self.mods.values():
+                for n in ast.walk(mod.tree):
+                    if isinstance(n, ast.Attribute) and n.attr == attr and isinstance(n.ctx, (ast.Store, ast.Del)):
+                        found = None
+            if found is not None:
+                for c in self.all_classes:
+                    if c is not owner and any((isinstance(n, ast.Assign) and any(isinstance(t, ast.Name) and t.id == attr for t in n.targets))
+                                              or (isinstance(n, ast.AnnAssign) and isinstance(n.target, ast.Name) and n.target.id == attr) for n in c.body):
+                        found = None
+        cache[key] = found
+        return found
+
     def overridden_below(self, cls, mname):
         """a class anywhere in the program that derives (by bare name, transitively) from cls and defines mname"""
         names, grew = {cls.name}, True
@@ -1315,6 +1350,22 @@ class FnPE:
                 return ast.copy_location(copy.deepcopy(self.m.consts[e.id]), e)
         return copy.copy(e)
 
+    def x_Attribute(self, e, env, pre):
+        m = self.generic(e, env, pre)
+        # self.NAME / cls.NAME / Class.NAME with NAME = <literal tuple / string> in the class body, never stored elsewhere
+        if isinstance(e.ctx, ast.Load) and isinstance(m.value, ast.Name) and self.cls is not None:
+            cls = None
+            if m.value.id in ("self", "cls") and m.value.id in params_of(self.fn)[:1]:
+                cls = self.cls
+            elif m.value.id in self.m.classes and m.value.id not in self.locals:
+                cls = self.m.classes[m.value.id]
+            if cls is not None:
+                lit = self.D.class_const(self.m, cls, m.attr)
+                if lit is not None:
+                    self.stat("consts")
+                    return ast.copy_location(copy.deepcopy(lit), e)
+        return m
+
     def x_Lambda(self, e, env, pre):
         inner = {k: v for k, v in env.items() if k not in bound_names(e)}
         m = copy.copy(e)
@@ -2087,7 +2138,52 @@ def cleanup(body, generated, params, is_local=None):
             return out
         body = drop(body)
         body = [subst(s, mp2) for s in body]
+    body = _local_copies(body, generated, params)
     return _fuse_tests(body, generated)
+
+
+def _local_copies(body, generated, params):
+    """inside one statement list (a loop body, a branch):  g = <name>  followed, in the same list, by every use of g  ->  the name itself
+    (g a name of this pass bound once; <name> bound once in the function or a never re-bound parameter)"""
+    stores, loads = {}, {}
+    for n in own_nodes(body):
+        if isinstance(n, ast.Name):
+            d = loads if isinstance(n.ctx, ast.Load) else stores
+            d[n.id] = d.get(n.id, 0) + 1
+        elif isinstance(n, (ast.FunctionDef, ast.AsyncFunctionDef, ast.Lambda, ast.ClassDef)):
+            for x in ast.walk(n):
+                if isinstance(x, ast.Name):
+                    loads[x.id] = loads.get(x.id, 0) + 2
+                    stores[x.id] = stores.get(x.id, 0) + 2
+
+    def count(stmts, nm):
+        return sum(1 for n in own_nodes(stmts) if isinstance(n, ast.Name) and n.id == nm and isinstance(n.ctx, ast.Load))
+
+    def once(nm):
+        return (stores.get(nm, 0) == 1 and nm not in params) or (nm in params and stores.get(nm, 0) == 0)
+
+    def go(stmts):
+        i = 0
+        stmts = list(stmts)
+        while i < len(stmts):
+            s = stmts[i]
+            if isinstance(s, ast.Assign) and len(s.targets) == 1 and isinstance(s.targets[0], ast.Name) and s.targets[0].id in generated \
+                    and isinstance(s.value, ast.Name) and s.value.id != s.targets[0].id:
+                g, src_ = s.targets[0].id, s.value.id
+                if stores.get(g, 0) == 1 and once(src_) and count(stmts[i + 1:], g) == loads.get(g, 0):
+                    stmts[i + 1:] = [subst(x, {g: s.value}) for x in stmts[i + 1:]]
+                    loads[src_] = loads.get(src_, 0) + loads.get(g, 0) - 1
+                    del stmts[i]
+                    continue
+            for f in ("body", "orelse", "finalbody"):
+                sub = getattr(s, f, None)
+                if isinstance(sub, list) and sub and isinstance(sub[0], ast.stmt):
+                    setattr(s, f, go(sub) or [ast.copy_location(ast.Pass(), s)] if f == "body" else go(sub))
+            for h in getattr(s, "handlers", []) or []:
+                h.body = go(h.body) or [ast.copy_location(ast.Pass(), h)]
+            i += 1
+        return stmts
+    return go(body)
 
 
 def _fuse_tests(body, generated):
